@@ -15,7 +15,7 @@ Code anchors: {', '.join(p['anchors']['files'])}; mechanisms: {'; '.join(m['name
 
 Your task: produce ONE realistic change (a plausible bug a developer could introduce: a refactoring slip, an off-by-one, a wrong condition/sign, a missed case, two sites that each look fine alone) to the loki source in {wt} that BREAKS this property, while
  (a) the code still imports/compiles,
- (b) the existing test suite still passes: run the test directories covering the files you touched and everything that uses them (e.g. `PYTHONPATH={wt} /venv/bin/python -m pytest loki -q -p no:cacheprovider -n 8 --timeout=900`) and compare with the unmodified state (some tests fail already at baseline, mostly f2py/compiler-environment related: only *newly* failing tests count; use `git stash` to compare), and
+ (b) the existing test suite still passes: run the test directories covering the files you touched and everything that uses them (e.g. `PYTHONPATH={wt} /venv/bin/python -m pytest loki -q -p no:cacheprovider -n 8 --timeout=900`) and compare with the unmodified state (some tests fail already at baseline, mostly f2py/compiler-environment related: only *newly* failing tests count; to compare with the unmodified state use `git diff > /tmp/my_{pid}.diff; git apply -R /tmp/my_{pid}.diff; ...; git apply /tmp/my_{pid}.diff` -- do NOT use `git stash`, the stash is shared with other worktrees), and
  (c) the breakage needs something specific to manifest (an unusual input, a particular value/sign/length, a particular combination or sequence of operations, a rarely used option), i.e. NOT something ordinary use or the existing tests would expose at once. Prefer subtle semantic breakage over crashes.
 Do not modify any test files. Keep the change small (a few lines).
 
@@ -23,4 +23,4 @@ Deliver, inside {wt}:
  1. `{wt}/seed/patch.diff`: output of `git diff` for your source change only (the seed/ directory itself must not be part of the diff).
  2. `{wt}/seed/demo.py`: a small standalone program (run as `cd {wt} && PYTHONPATH={wt} /venv/bin/python seed/demo.py`) that exits 0 on the unmodified code and exits non-zero (with a clear message) with your change applied. It must demonstrate a violation of the property as stated (compare computed values / outputs / behaviours), not just detect that the source text changed.
  3. `{wt}/seed/meta.json`: {{"property": "{pid}", "summary": "...", "needs_to_manifest": "...", "files_changed": [...], "tests_run": "command + result summary"}}.
-Leave the change APPLIED in the worktree when you finish. Verify yourself that demo.py passes with `git stash` (change removed; seed/ is untracked so it stays) and fails with the change applied. In your final answer, summarise the change, what it needs to manifest, and the exact test commands you ran with their pass/fail counts.''')
+Leave the change APPLIED in the worktree when you finish. Verify yourself that demo.py passes with the change removed (`git apply -R seed/patch.diff`; seed/ is untracked so it stays) and fails with the change applied (`git apply seed/patch.diff`). In your final answer, summarise the change, what it needs to manifest, and the exact test commands you ran with their pass/fail counts.''')
